@@ -10,4 +10,5 @@ Separate Extraction
   std_leaves pair_leaves box_r box_sr file_r file_sr tree tsize tname bout ist sst ipos sr rpos rerr
   leafbox_r leafbox_sr leafval leafval_size trun tsample senc mdatv
   entbox_r entbox_sr entval entval_size vse stsd top_leaves
-  mdat_enc_w mdat_enc_sw stsd_enc_w stsd_enc_sw vse_enc_w vse_enc_sw.
+  mdat_enc_w mdat_enc_sw stsd_enc_w stsd_enc_sw vse_enc_w vse_enc_sw
+  progbox_r progbox_sr progbox_size.
